@@ -138,7 +138,7 @@ PROPS = {
               ["ZapProofs/WriterLemmas%s.lean" % x for x in ("Uv", "Walk", "Post", "Stored", "BA", "LayoutDefs", "LayoutPost",
                                                            "LayoutFinal", "LayoutStored", "LayoutStoredCex")],
               partial="FST (vellum) and roaring blobs are decoded by the real libraries and handed to the Lean decoder as an oracle table; snappy, varints, chunk tables, stored/doc-value/thesaurus/vector records and the footer+CRC are decoded natively in Lean"),
-    "C14": _p([{"gen": "C14", "vectors": True}], ["ZapProofs.Props.C14", "ZapProofs.Props.Codec"],
+    "C14": _p([{"regress": "d12_eligible_excluded.script", "vectors": True}, {"gen": "C14", "vectors": True}], ["ZapProofs.Props.C14", "ZapProofs.Props.Codec"],
               ["Zap.C14.C14_sound", "Zap.C14.C14_no_excluded", "Zap.C14.C14_only_eligible", "Zap.C14.C14_at_most_k",
                "Zap.C14.C14_topk_exact", "Zap.C14.C14_topk_exact_filtered", "Zap.C14.C14_wrong_dim_empty", "Zap.C14.C14_no_vectors_empty",
                "Zap.C14.C14_contract_satisfiable", "Zap.C14.C14_code_order", "Zap.Props.Codec.vectorCode_order"],
